@@ -109,9 +109,9 @@ func mkLen(n int, seed byte) []byte {
 
 // params: nil, zero value, and every field from its alphabet.
 type pSpec struct {
-	nilP          bool
-	d, a          int
-	period, skew  uint64
+	nilP         bool
+	d, a         int
+	period, skew uint64
 }
 
 func (p pSpec) param() *otp.Param {
@@ -408,7 +408,10 @@ func c10Descs() []desc {
 			}
 			v := []string{"", "zz", "00ff"}
 			a := []string{aStrings[ix[0]], aStrings[ix[1]], v[ix[2]], v[ix[3]], v[ix[4]]}
-			return fmt.Sprintf("%s,%s,%s,%s,%s", sh(a[0]), sh(a[1]), sh(a[2]), sh(a[3]), sh(a[4])), func() { otp.HexInputToOCRA(a[0], a[1], a[2], a[3], a[4]); otp.HexInputToOCRA(a[4], a[3], a[2], a[1], a[0]) }
+			return fmt.Sprintf("%s,%s,%s,%s,%s", sh(a[0]), sh(a[1]), sh(a[2]), sh(a[3]), sh(a[4])), func() {
+				otp.HexInputToOCRA(a[0], a[1], a[2], a[3], a[4])
+				otp.HexInputToOCRA(a[4], a[3], a[2], a[1], a[0])
+			}
 		}},
 		// exported only in the js/wasm build configuration; run here through the natively built copy.
 		// Code lengths are taken from the Digits type's range (the binding only ever passes 6, 8, 9, 10).
@@ -480,7 +483,11 @@ func c10(r *ev.Run) {
 		if !ok {
 			return "", "unknown operation"
 		}
-		args, bad, _ := c10Run(d, c.Index)
+		var args, bad string
+		if !irt.RunGuarded(func() { args, bad, _ = c10Run(d, c.Index) }) {
+			a, _ := d.at(c.Index)
+			return a, fmt.Sprintf("blocked: did not return and executed no statement for %d s", irt.StallSeconds)
+		}
 		return args, bad
 	})
 	if ReplayOnly {
@@ -494,6 +501,21 @@ func c10(r *ev.Run) {
 		var shard, shards int
 		fmt.Sscanf(ch, "%d/%d", &shard, &shards)
 		out := c10Shard{Ran: map[string]int64{}}
+		var curOp string
+		var curIdx int
+		stop := irt.WatchStall(func() {
+			// the call in flight is blocked (no statement executed, not returned): report it and stop this worker
+			out.Fails = append(out.Fails, struct {
+				Op    string `json:"op"`
+				Index int    `json:"index"`
+				Args  string `json:"args"`
+				Bad   string `json:"bad"`
+			}{curOp, curIdx, "", fmt.Sprintf("blocked: did not return and executed no statement for %d s", irt.StallSeconds)})
+			b, _ := json.Marshal(out)
+			fmt.Println("SHARD-RESULT " + string(b))
+			os.Exit(0)
+		})
+		defer stop()
 		for _, d := range descs {
 			n := d.count()
 			st := stride
@@ -502,6 +524,8 @@ func c10(r *ev.Run) {
 			}
 			perOpFails := 0
 			for i := shard * st; i < n; i += shards * st {
+				curOp, curIdx = d.name, i
+				irt.Heartbeat.Add(1)
 				args, bad, ran := c10Run(d, i)
 				if !ran {
 					continue
